@@ -65,7 +65,7 @@ func sumWL(x *mon.Ctx) {
 	selftest(x)
 	g := mon.NewGuard(1 << 17)
 	defer g.Free()
-	maxLen := 1100
+	maxLen := x.Scale(1100, 4300) // thorough: every length up to 67 blocks (every residue after every phase of the 4/8-block loops)
 	one := func(c *mon.Case, n int, kind int, hi bool) {
 		m := g.Side(n, hi)
 		fillKind(c.R, kind, m)
@@ -111,7 +111,7 @@ func sumWL(x *mon.Ctx) {
 		}
 	}
 	// long messages: every bulk phase of the multi-block assembly
-	for i := 0; i < x.Scale(300, 6000); i++ {
+	for i := 0; i < x.Scale(300, 24000); i++ {
 		pre := mon.NewRand(x.Seed, "c01.sumlong", i)
 		n := 1100 + pre.Intn(1<<16-1100)
 		if i%3 == 0 {
@@ -142,7 +142,7 @@ func historyWL(x *mon.Ctx) {
 	g := mon.NewGuard(1 << 13)
 	defer g.Free()
 	lens := []int{0, 1, 3, 4, 31, 32, 55, 56, 57, 63, 64, 65, 119, 120, 127, 128, 129, 191, 192, 255, 256, 257, 511, 512, 513, 1000, 1024, 2047}
-	for i := 0; i < x.Scale(4000, 60000); i++ {
+	for i := 0; i < x.Scale(4000, 300000); i++ {
 		c := x.Begin("history #%d", i)
 		if c == nil {
 			continue
@@ -424,6 +424,17 @@ func kdfWL(x *mon.Ctx) {
 	g := mon.NewGuard(1 << 13)
 	defer g.Free()
 	keyLens := []int{1, 31, 32, 33, 95, 96, 97, 128, 129, 224, 225, 256, 257, 300, 511, 512, 1000}
+	maxZ := 200
+	if x.Thorough() {
+		// every output length up to 17 blocks (every remainder class of the 4- and 8-lane loops twice) and the long ones;
+		// every len(z) up to five blocks + every residue
+		keyLens = keyLens[:0]
+		for kl := 1; kl <= 545; kl++ {
+			keyLens = append(keyLens, kl)
+		}
+		keyLens = append(keyLens, 1000, 1024, 2047, 4096)
+		maxZ = 330
+	}
 	one := func(c *mon.Case, zl, kl int, hi bool, entries int) {
 		z := g.Side(zl, hi)
 		c.R.Fill(z)
@@ -456,7 +467,7 @@ func kdfWL(x *mon.Ctx) {
 			c.Eq("prefix law: Kdf(z,a) must be a prefix of Kdf(z,b), a<b", longer[:kl], want)
 		}
 	}
-	for zl := 0; zl <= 200; zl++ {
+	for zl := 0; zl <= maxZ; zl++ {
 		for ki, kl := range keyLens {
 			hi := (zl+ki)%2 == 0
 			c := x.Begin("kdf grid len(z)=%d keyLen=%d guard=%s", zl, kl, side(hi))
@@ -468,7 +479,7 @@ func kdfWL(x *mon.Ctx) {
 			c.End()
 		}
 	}
-	for i := 0; i < x.Scale(1500, 40000); i++ {
+	for i := 0; i < x.Scale(1500, 120000); i++ {
 		pre := mon.NewRand(x.Seed, "c01.kdfr", i)
 		zl, kl := pre.Intn(4097), pre.Range(1, 4096)
 		if i%2 == 0 {
